@@ -54,6 +54,8 @@ var c17SlotKind = map[string]string{"header": "own", "build": "build", "pkgdoc":
 func c17Render(slots map[string]string, sites string) string {
 	funcs := strings.HasSuffix(sites, "/funcs")
 	sites = strings.TrimSuffix(sites, "/funcs")
+	siteFirst := strings.HasSuffix(sites, "/sitefirst") // the declaration containing the site is the first of the file
+	sites = strings.TrimSuffix(sites, "/sitefirst")
 	own := func(s, indent string) string {
 		if c, ok := slots[s]; ok {
 			return indent + c + "\n"
@@ -80,6 +82,8 @@ func c17Render(slots map[string]string, sites string) string {
 	b.WriteString(free("build"))
 	b.WriteString(own("pkgdoc", ""))
 	b.WriteString("package p" + eol("pkgtrail") + "\n\n")
+	head := b.String()
+	b.Reset()
 	b.WriteString(free("free1"))
 	b.WriteString(own("d1doc", ""))
 	if funcs {
@@ -87,6 +91,8 @@ func c17Render(slots map[string]string, sites string) string {
 	} else {
 		b.WriteString("type T struct {" + eol("d1open") + "\n\ta int" + eol("d1in") + "\n" + own("d1own", "\t") + "\tb string\n}" + eol("d1trail") + "\n\n")
 	}
+	blockD1 := b.String()
+	b.Reset()
 	b.WriteString(free("free2"))
 	b.WriteString(own("d2doc", ""))
 	mid := ""
@@ -98,6 +104,13 @@ func c17Render(slots map[string]string, sites string) string {
 		call = "bar(1)"
 	}
 	b.WriteString("func site() {\n\tpre()\n" + own("d2own", "\t") + "\t" + call + eol("d2eol") + "\n\tmid(" + mid + "2)\n}" + eol("d2trail") + "\n\n")
+	blockD2 := b.String()
+	b.Reset()
+	if siteFirst {
+		b.WriteString(head + blockD2 + blockD1)
+	} else {
+		b.WriteString(head + blockD1 + blockD2)
+	}
 	b.WriteString(free("free3"))
 	b.WriteString(own("d3doc", ""))
 	v := "other(3)"
@@ -172,7 +185,7 @@ func c17Gen(tier string, emit func(any)) {
 	var rec func(start int, slots map[string]string)
 	emitFor := func(slots map[string]string) {
 		for _, id := range ids {
-			for _, sites := range []string{"d2", "d2+d3", "d4", "d2/funcs", "d4/funcs"} {
+			for _, sites := range []string{"d2", "d2+d3", "d4", "d2/funcs", "d4/funcs", "d2/sitefirst", "d2+d3/sitefirst", "d2/sitefirst/funcs"} {
 				cp := map[string]string{}
 				for k, v := range slots {
 					cp[k] = v
